@@ -12,7 +12,7 @@ SUB = {"a": ("A", "D:A:aasub:i:i2001,i2000"), "b": ("B", "D:B:bbsub:s:sy"), "d":
 
 def gen_history(tier, seed):
     r = rng(seed, "history")
-    ncases, maxops = (150, 12) if tier == "quick" else (2500, 40)
+    ncases, maxops = (250, 12) if tier == "quick" else (2500, 40)
     lines = []
     stats = {"cases": 0, "ops": {}, "probes": 0}
 
@@ -229,7 +229,7 @@ def gen_history(tier, seed):
                 base = r.choice([[7, 1], [7], [1, 7], [8, 1], [0, 1]])
                 other = r.choice([[7, 1], [8, 1], [1, 7], [7], [7, 1], [9, 1], [9]])
                 how = r.random()
-                if how >= 0.6 and r.random() < 0.5:
+                if r.random() < 0.35:
                     # other dimensions whose lengths happen to fit: labels decide, not shapes
                     base, other = r.choice([([7, 1], [9, 1]), ([7], [9]), ([7, 1], [7, 0]), ([9, 1], [7, 1])])
                 hb = nxt[0]; nxt[0] += 1
